@@ -177,8 +177,9 @@ Definition commit_one (safe bad : bool) (st : state) (ne : name * eid) : state :
        if safe then
          match lookup n (mmap st) with
          | Some cur => if Nat.eqb cur e then st1
-                       else set_map (set_elem st1 cur (e_scrap (elems st1 cur))) (remove_key n (mmap st))
-         | None => st1
+                       else set_map (set_elem (set_elem st1 e (e_scrap (elems st1 e))) cur (e_scrap (elems st1 cur)))
+                                    (remove_key n (mmap st))
+         | None => set_elem st1 e (e_scrap (elems st1 e))
          end
        else st1.
 Definition commit_all (safe bad : bool) (st : state) (w : list (name * eid)) : state :=
